@@ -603,6 +603,13 @@ class C08:
                     comp = x
         from sa.idioms import guarded_empty
         empty0 = comp is not None and any(r.term in (("const", 0.0), ("const", 0)) and guarded_empty(r.live, comp) for r in ms.returns)
+        if comp is not None and not empty0:
+            # scenario form: with an empty selection exactly the `return 0` paths are live and the mean is not evaluated
+            from sa.peval import truth
+            live_rets = [r for r in ms.returns if truth(peval(r.live, {comp: ()})) is True]
+            mean_evald = [e for e in ms.calls if e.term[1] == ("ext", "numpy.mean") and truth(peval(e.live, {comp: ()})) is not False]
+            undecided = [r for r in ms.returns if truth(peval(r.live, {comp: ()})) is None]
+            empty0 = bool(live_rets) and all(r.term in (("const", 0.0), ("const", 0)) for r in live_rets) and not mean_evald and not undecided
         valid = comp is not None and comp[2] == ("elem", comp[3][0][0]) and comp[3][0][2] == (("cmp", "isnot", ("elem", comp[3][0][0]), NONE),)
         meanret = any(r.term[0] == "call" and r.term[1] == ("builtin", "float") and r.term[2][0][0] == "call"
                       and r.term[2][0][1] == ("ext", "numpy.mean") and r.term[2][0][2] == (comp,) for r in ms.returns) if comp else False
